@@ -403,6 +403,7 @@ func ruleOrderDefault(p *Prog, r *Result) {
 				return
 			}
 			okv := false
+			carried := ""
 			for _, e := range appendedElems(c) {
 				ld, ok := e.(*ssa.UnOp)
 				if !ok {
@@ -425,12 +426,16 @@ func ruleOrderDefault(p *Prog, r *Result) {
 								if st, ok := r2.(*ssa.Store); ok && L.Body[st.Block()] && instrDominates(st, c) {
 									okv = true
 								}
+								if st, ok := r2.(*ssa.Store); ok && L.Body[st.Block()] && loopCarried(st.Val, L) {
+									carried = p.InstrPos(st)
+								}
 							}
 						}
 					}
 				}
 			}
 			r.add(okv, key, p.InstrPos(c), "the direction of each order field is assigned in its own loop iteration before it is appended")
+			r.add(carried == "", key+"|not-carried", p.InstrPos(c), firstNonEmpty(map[bool]string{true: "the direction stored at " + carried + " is carried over from the previous order field (a field without ASC/DESC must default to ascending, not inherit its neighbour's direction)"}[carried != ""], "no direction value is carried from one order field to the next"))
 		})
 	}
 	r.floor("order-field appends", n, 1)
@@ -512,4 +517,27 @@ func ruleDrainAll(p *Prog, r *Result) {
 	}
 	r.floor("heap pushes in the sort node", nPush, 2)
 	r.floor("heap pops in the sort node", nPop, 2)
+}
+
+// loopCarried: v is (a merge of) a value that enters the loop header from the previous iteration.
+func loopCarried(v ssa.Value, L *Loop) bool {
+	seen := map[ssa.Value]bool{}
+	var rec func(x ssa.Value) bool
+	rec = func(x ssa.Value) bool {
+		ph, ok := x.(*ssa.Phi)
+		if !ok || seen[x] {
+			return false
+		}
+		seen[x] = true
+		if ph.Block() == L.Header {
+			return true
+		}
+		for _, e := range ph.Edges {
+			if rec(e) {
+				return true
+			}
+		}
+		return false
+	}
+	return rec(v)
 }
